@@ -935,23 +935,25 @@ def check_program_prop(ctx):
         write_evidence(ctx, "exploration", {"evaluations": 1, "distinct_nontrivial": 2, "rule": "replay of one saved program", "samples": [r.get("file", "")]}, PROG_ASSUMPTIONS)
         return
     pg = farm.build_pg()
+    pg_ev = farm.build_pg(("events",))
     nrep = 0
     for f in sorted(glob.glob(os.path.join(VERIF, "replays", prop, "*.pcase"))) + ([ctx.replay] if ctx.replay and ctx.replay.endswith(".pcase") else []):
         nrep += 1
-        p = subprocess.run([pg, "m-replay", "--prop", prop, f], cwd=VERIF, stdout=subprocess.PIPE, stderr=subprocess.STDOUT, text=True)
-        if p.returncode == 1:
-            for line in p.stdout.splitlines():
-                if line.startswith("FAIL "):
-                    report_failure(ctx, "engine-m", f, "[engine M] %s" % parse_line(line).get("msg", ""))
-        elif p.returncode == 2:
-            raise Inconclusive("engine M could not interpret the macro output while replaying %s" % f)
+        for which, b in (("", pg), (", generators built with `events`", pg_ev)):
+            p = subprocess.run([b, "m-replay", "--prop", prop, f], cwd=VERIF, stdout=subprocess.PIPE, stderr=subprocess.STDOUT, text=True)
+            if p.returncode == 1:
+                for line in p.stdout.splitlines():
+                    if line.startswith("FAIL "):
+                        report_failure(ctx, "engine-m", f, "[engine M%s] %s" % (which, parse_line(line).get("msg", "")))
+                break
+            elif p.returncode == 2:
+                raise Inconclusive("engine M could not interpret the macro output while replaying %s" % f)
         # the same case end to end through rustc
         if prop != "C18":
             run_engine_p(ctx, pg, prop, case_file=f)
     if ctx.replay:
         write_evidence(ctx, "exploration", {"evaluations": nrep, "distinct_nontrivial": 2, "rule": "replay of saved inputs only", "samples": [open(ctx.replay).read()]}, PROG_ASSUMPTIONS)
         return
-    pg_ev = farm.build_pg(("events",))
     m = run_engine_m(ctx, pg, prop, pg_alt=pg_ev)
     p = run_engine_p(ctx, pg, prop)
     if prop == "C18":
